@@ -310,7 +310,7 @@ std::string
 gen_c06()
 {
 	std::ostringstream t;
-	int mode = *gen::weightedElement<int>({{3, 0}, {2, 1}, {2, 2}});
+	int mode = *pbt::welem<int>({{3, 0}, {2, 1}, {2, 2}});
 	t << "cfg " << *pbt::range<int>(1, 1000000) << " " << mode << " " << *gen::element(10, 30, 60) << " " << *pbt::range<int>(1, 3) << " 600 0\n";
 	auto ops = *gen::container<std::vector<std::string>>(genOp());
 	for (auto &l : ops)
